@@ -188,6 +188,9 @@ func (e *c26Env) isNameExpr(x ast.Expr) bool {
 	return false
 }
 
+// things seen that the model does not cover (reported with the facts, they do not change the verdict)
+var c26Observations []string
+
 // isValidSwampName includes the length bound (set before any program is scanned)
 var c26ValidLen = false
 
@@ -1275,6 +1278,7 @@ done:
 		flags['w'] = true
 	}
 	vigil := true
+	var innerPlain []string
 	for bi, b := range bodies {
 		bf := f
 		if bi > 0 {
@@ -1294,9 +1298,19 @@ done:
 				txt := bf.Str(s)
 				if strings.HasSuffix(txt, ".BeginVigil()") && !strings.HasPrefix(txt, "defer") {
 					v := strings.TrimSuffix(txt, ".BeginVigil()")
-					if k+1 >= len(blk.List) || bf.Str(blk.List[k+1]) != "defer "+v+".CeaseVigil()" {
-						vigil = false
+					if k+1 < len(blk.List) && bf.Str(blk.List[k+1]) == "defer "+v+".CeaseVigil()" {
+						continue
 					}
+					// a further vigil INSIDE the engine part (the handler already holds its deferred one): `X.BeginVigil(); <one
+					// call on X>; X.CeaseVigil()` on an instance summoned a few lines above.  It is below the first engine call,
+					// where the model's `body` step stands for everything; recorded as an observation (a panic in that one call
+					// would leave the vigil), it does not change the vigil discipline of the handler's own prefix.
+					if k+2 < len(blk.List) && bf.Str(blk.List[k+2]) == v+".CeaseVigil()" && strings.Contains(bf.Str(blk.List[k+1]), v+".") &&
+						strings.Contains(bf.Str(b), "defer") && strings.Index(bf.Str(b), ".CeaseVigil()") < strings.Index(bf.Str(b), txt) {
+						innerPlain = append(innerPlain, fmt.Sprintf("%s:%d %s", bf.Path, bf.Line(s), txt))
+						continue
+					}
+					vigil = false
 				}
 			}
 			return true
@@ -1304,6 +1318,9 @@ done:
 	}
 	if vigil {
 		flags['v'] = true
+	}
+	for _, ip := range innerPlain {
+		c26Observations = append(c26Observations, h.name+": vigil taken and ceased without defer inside the engine part: "+ip)
 	}
 	// explicit `return nil, nil`
 	if kind == "unary" {
@@ -1598,6 +1615,9 @@ func init() {
 			}
 		}
 		fs.Raw("handlers", "[\n    "+strings.Join(lean, ",\n    ")+"]", strings.Join(show, "\n"), fmt.Sprintf("%s (%d methods with a gRPC signature)", c26Dir, len(hs)))
+		for _, o := range c26Observations {
+			fs.Err("observation (not part of the verdict): %s", o)
+		}
 	}})
 }
 
